@@ -46,7 +46,7 @@ func sqrtCase(c *Ctx, xo *Opnd, x *Dec, prec uint32, mode uint8, pre int) {
 func sqrtLayers(tier string) []Layer {
 	thorough := tier == "thorough"
 	var layers []Layer
-	allPrecs := []uint32{1, 2, 3, 4, 5, 6, 7, 8, 16, 19, 20, 34, 38, 40}
+	allPrecs := []uint32{1, 2, 3, 4, 5, 6, 7, 8, 16, 17, 18, 19, 20, 21, 34, 36, 37, 38, 39, 40, 56, 57, 58}
 	// Q1: digit-exhaustive
 	{
 		k := 4
